@@ -15,7 +15,7 @@ from vf.common import Check
 def valid_doc(seed, dm):
     """valid by construction, with the extras this property names: id-less states, multi-target deep initial attributes"""
     rng = random.Random(seed * 13 + 5)
-    ch, hist = c01lib.make_case(seed, dm if dm != 'promela' else 'lua')
+    ch, hist = c01lib.make_case(seed, dm)
     # multi-target initial attribute into the regions of a parallel (deep)
     for s in ch.doc:
         if s.kind in ('state', 'scxml') and s.states() and rng.random() < 0.25:
@@ -63,7 +63,7 @@ def force_first(ch, hist, tr_targets, content=()):
 def faulty_doc(seed, dm):
     """-> (fault kind, chart model after the fault (or None), xml, hist) ; None if the fault is not applicable to this document"""
     rng = random.Random(seed * 17 + 3)
-    ch, hist = c01lib.make_case(seed, dm if dm != 'promela' else 'lua')
+    ch, hist = c01lib.make_case(seed, dm)
     kind = FAULTS[seed % len(FAULTS)]
     proper = ch.proper(); model = ch
     xml = None
